@@ -269,10 +269,11 @@ class DiscoveryDomain(ExactCollections, Domain):
     unpack_may_raise = False
     global_keys = ("#log", "#imprecise")
 
-    def __init__(self, prog, fn, use_vpc, reply):
+    def __init__(self, prog, fn, use_vpc, reply, fails=None):
         super().__init__(prog, fn)
         self.use_vpc = use_vpc
         self.reply = reply
+        self.fails = fails  # None | the exception class raw_command raises (the client has closed its socket by then)
 
     def mark_imprecise(self, state, node):
         return state.set("#imprecise", 1)
@@ -299,6 +300,11 @@ class DiscoveryDomain(ExactCollections, Domain):
         if isinstance(objval, Const):
             return ("cmeth", objval, node.attr)
         if objval == Opaque("cfg-client"):
+            if node.attr == "sock":
+                # a Client that failed has closed its connection: there is no socket on it (C01.R1 / C06)
+                return NONE if self.fails else Opaque("cfg-client.sock")
+            if node.attr == "server":
+                return TupleV((Const("cluster.abc123.cfg.use1.cache.amazonaws.com"), Const("11211")))
             return ("client-meth", node.attr)
         if isinstance(node.value, ast.Name) and node.value.id in ("operator", "logger", "logging"):
             return Opaque("%s.%s" % (node.value.id, node.attr))
@@ -329,7 +335,11 @@ class DiscoveryDomain(ExactCollections, Domain):
                 cmd = args[0] if args else kwargs.get("command", TOP)
                 et = args[1] if len(args) > 1 else kwargs.get("end_tokens", Const(None))
                 rec = ("command", (cmd.v if isinstance(cmd, Const) else str(cmd), et.v if isinstance(et, Const) else str(et)))
+                if self.fails:
+                    return [("exc", Exc(ORD, self.fails, node.lineno), state.set("#log", state.get("#log", ()) + (rec,)))]
                 return [("ok", Const(self.reply), state.set("#log", state.get("#log", ()) + (rec,)))]
+            if fval[1] in ("close", "quit", "disconnect_all"):
+                return [("ok", NONE, state.set("#log", state.get("#log", ()) + (("closed",),)))]
             return [("ok", NONE, state)]
         if isinstance(fval, tuple) and fval and fval[0] == "cmeth":
             r = fold_method(fval[1], fval[2], args, kwargs, node.lineno)
@@ -436,6 +446,28 @@ def run(chk):
         if not seen:
             r1.ok("%s: every local is bound on every path that reads it" % f.qualname, sample=(n_f < 3))
     r1.floor("functions analysed", n_f, 3)
+    # what escapes when the discovery command fails: the discovery interpreted with raw_command raising
+    gnl_ = prog.method(prog.cls("AWSElastiCacheHashClient"), "_get_nodes_list", required=False)
+    if gnl_ is None:
+        r1.undecided("AWSElastiCacheHashClient._get_nodes_list:missing", "the discovery method was not found")
+    else:
+        for exc_cls in ("MemcacheUnknownCommandError", "MemcacheUnexpectedCloseError", "ConnectionRefusedError"):
+            for use_vpc in (0, 1):
+                dom = DiscoveryDomain(prog, gnl_, use_vpc, b"", fails=exc_cls)
+                outs = Interp(dom, gnl_.node, prog).run(Env())
+                escaped = sorted({str(e.cls) for s_, e, t in outs.of("exc")})
+                imprecise = any(s_.get("#imprecise", 0) for s_, e, t in outs.of("exc")) or any(s_.get("#imprecise", 0) for s_, v, t in outs.of("ret"))
+                what = "the config command fails with %s (use_vpc=%d)" % (exc_cls, use_vpc)
+                key = "AWSElastiCacheHashClient._get_nodes_list:failure-escapes:%s" % exc_cls
+                if outs.of("ret"):
+                    r1.fail(key, "%s: _get_nodes_list returns %s instead of passing the error on: the client is configured from a reply that never came" % (what, sorted({str(deref(v, s_)) for s_, v, t in outs.of("ret")})[:2]), fn=gnl_)
+                elif escaped == [exc_cls]:
+                    closed = all(any(x[0] == "closed" for x in s_.get("#log", ())) for s_, e, t in outs.of("exc"))
+                    r1.expect(closed, "%s: the error escapes as it is, the discovery client is closed" % what, "AWSElastiCacheHashClient._get_nodes_list:failure-leaves-client-open", "%s: the error is passed on but the discovery client is not closed on that path" % what, fn=gnl_)
+                elif imprecise:
+                    r1.undecided(key, "%s: what escapes (%s) lies on a path the analysis does not follow exactly" % (what, escaped))
+                else:
+                    r1.fail(key, "%s: what escapes is %s - the handler itself fails (the client has closed its connection by then: there is no socket, nothing to read from it), so the caller sees an internal error instead of the memcached error" % (what, escaped), fn=gnl_)
 
     # ------------------------------------------------------------------ R2 coupled rotation state
     r2 = chk.rule("C19.R2", "reconfigure_nodes: on every path the old nodes leave self.clients, the hasher and the failover bookkeeping before any advertised node is added; every advertised node is added, unconditionally and normalised")
